@@ -108,16 +108,9 @@ def check_ring(rep, mod, cfg, name):
         ext = {p.name: 24 for p in ps0 if kind(p) == 'ext'}
         elem = {p.name: 'int' for p in ps0 if kind(p) == 'intref'}
         elem.update({p.name: 'any' for p in ps0 if kind(p) == 'string'})
+        from ..wrapcheck import explore_paths
         try:
-            eff = harness.run_routine(mod, name, summ, alias=al, extents=ext, elem=elem)
-            regname = lambda p: p.region.name if p.region is not None else p.name
-            if op == 'div':
-                T = {p.name: p for p in eff.params}
-                A, _ = comps(T['a'], regname)
-                inv = Poly.var('Inv(%s)' % Poly.var('b'))
-                exp = [(x * inv).modp() for x in A]
-            else:
-                exp = ring_spec(op, eff.params, regname)
+            paths = list(explore_paths(mod, name, summ, ctx, ps0, alias=al, extents=ext, elem=elem))
         except (Incomplete, IRError) as e:
             if 'raw' in str(e) and 'field data' in str(e):
                 # the routine does its own 64-bit arithmetic on representations: decide it in kernel mode instead
@@ -128,27 +121,45 @@ def check_ring(rep, mod, cfg, name):
         except Sink as e:
             rep.refute('safety:' + tag, 'ext-safety', sink_site(e, site), str(e))
             continue
-        rn = [p for p in eff.params if p.name == 'result'][0].region.name
-        bad = []
-        for j in range(3):
-            v = eff.writes.get((rn, 8 * j))
-            v = FV.const(v) if isinstance(v, int) else v
-            if v is None:
-                bad.append('component %d not written' % j)
-            elif v.nf != exp[j]:
-                bad.append('component %d is %s, exact result %s' % (j, str(v.nf)[:140], str(exp[j])[:140]))
-        stray = [k for k in eff.writes if not (k[0] == rn and k[1] in (0, 8, 16))]
-        if stray:
-            bad.append('writes outside result: %s' % stray[:3])
-        if bad:
-            rep.refute('value:' + tag, 'ext-value', site, '; '.join(bad))
-        else:
-            rep.ok('value:' + tag, 'ext-value', site, '%s = exact result in F_p[x]/(x^3-x-1)' % op)
-            if not al:
-                rep.sample(dict(function=dem, site=site, component0=str(exp[0])[:200]))
-        if ctx.violations:
-            v = ctx.violations[0]
-            rep.refute('pre:' + tag, 'callsite-precondition', site, '%s operand %s: %s' % (v['callee'], v['operand'], v['detail']))
+        for dec, eff, values, atom_subst in paths:
+            ptag = tag + ('' if not dec else ' path[%s]' % ','.join('(%s)%s0' % (v[1], '==' if v[0] else '!=') for k, v in sorted(dec.items(), key=str) if k[0] == 'res'))
+            regname = lambda p: p.region.name if p.region is not None else p.name
+            try:
+                if op == 'div':
+                    T = {p.name: p for p in eff.params}
+                    A, _ = comps(T['a'], regname)
+                    inv = Poly.var('Inv(%s)' % Poly.var('b'))
+                    exp = [(x * inv).modp() for x in A]
+                else:
+                    exp = ring_spec(op, eff.params, regname)
+            except Incomplete as e:
+                rep.incomplete('value:' + ptag, 'ext-value', site, str(e))
+                continue
+            if atom_subst:
+                exp = [x.subst(atom_subst).modp() for x in exp]
+            rn = [p for p in eff.params if p.name == 'result'][0].region.name
+            bad = []
+            for j in range(3):
+                v = eff.writes.get((rn, 8 * j))
+                v = FV.const(v) if isinstance(v, int) else v
+                if v is None:
+                    bad.append('component %d not written' % j)
+                    continue
+                nf = v.nf.subst(atom_subst).modp() if atom_subst and (v.nf.vars() & set(atom_subst)) else v.nf
+                if nf != exp[j]:
+                    bad.append('component %d is %s, exact result %s' % (j, str(nf)[:140], str(exp[j])[:140]))
+            stray = [k for k in eff.writes if not (k[0] == rn and k[1] in (0, 8, 16))]
+            if stray:
+                bad.append('writes outside result: %s' % stray[:3])
+            if bad:
+                rep.refute('value:' + ptag, 'ext-value', site, '; '.join(bad))
+            else:
+                rep.ok('value:' + ptag, 'ext-value', site, '%s = exact result in F_p[x]/(x^3-x-1)' % op)
+                if not al and not dec:
+                    rep.sample(dict(function=dem, site=site, component0=str(exp[0])[:200]))
+            if ctx.violations:
+                v = ctx.violations[0]
+                rep.refute('pre:' + ptag, 'callsite-precondition', site, '%s operand %s: %s' % (v['callee'], v['operand'], v['detail']))
 
 
 def kernel_fallback(rep, cfg, name, op, ps, al, tag, site):
